@@ -490,8 +490,9 @@ def _short(x):
     return x if len(s) < 600 else s[:600] + "..."
 
 
-def _run_sampled(ctx, n_per_family):
+def _run_sampled(ctx, n_per_family, with_model=False):
     from ekw import c17_sampled as S
+    job_lines = []      # (case, model input, real dump) for the Model/Json comparison
     try:
         S.registry()
         S.exec_message_classes()
@@ -525,6 +526,12 @@ def _run_sampled(ctx, n_per_family):
             ctx.count("job:positional_edges", ps)
         if r["status"] == "ok":
             ctx.traces += 1
+            if with_model and fam == "job" and S.LAST_JOB_BYTES[0] is not None and len(S.LAST_JOB_BYTES[0]) < 200000:
+                try:
+                    real = json.loads(S.LAST_JOB_BYTES[0])
+                    job_lines.append((case, S.job_model_input(S.build(case["spec"])), real))
+                except Exception as e:
+                    ctx.count("job:model_input_failed:" + type(e).__name__)
         if r["violation"] is not None:
             sig, what = r["violation"]
             key = json.dumps(sig, sort_keys=True)
@@ -533,9 +540,39 @@ def _run_sampled(ctx, n_per_family):
                 ctx.violation(sig, case, what)
 
 
+    if job_lines:
+        from ekw.core import lean_drive
+        res = lean_drive("C17", [json.dumps({"op": "job", "job": mi, "real": real}, ensure_ascii=False) for _, mi, real in job_lines])
+        if len(res) != len(job_lines):
+            ctx.disagree("driver-output-length", {"lines": len(job_lines)}, len(res), len(job_lines))
+            return
+        nd = 0
+        for (case, mi, real), line in zip(job_lines, res):
+            ctx.traces += 1
+            ctx.count("job:model_compared")
+            try:
+                m = json.loads(line)
+            except Exception:
+                m = {"driver_output": line[:300]}
+            if "dump" not in m:
+                bad = ("driver", m)
+            elif not S.json_same(m["dump"], real):
+                bad = ("dump", S._first_diff(real, m["dump"], eq=S.json_same))
+            elif m.get("reload") is not True:
+                bad = ("model-reload", m.get("reload"))
+            elif m.get("load_real") is not True:
+                bad = ("model-load-of-real-dump", m.get("load_real"))
+            else:
+                bad = None
+            if bad and nd < 10:
+                nd += 1
+                ctx.disagree("job-json-" + bad[0], case if len(json.dumps(case)) < 4000 else {"case": "large", "cls": case["cls"]},
+                             _short(bad[1]), "the dump written by the real code / the instance it was built from")
+
+
 def _run(ctx, with_model):
     _run_shm(ctx, with_model, ctx.budget(1000, 50000))
-    _run_sampled(ctx, ctx.budget(150, 4000))
+    _run_sampled(ctx, ctx.budget(150, 4000), with_model)
 
 
 def correspond(ctx):
